@@ -252,9 +252,9 @@ theorem error_is_noop_multi : error_is_noop_multi_Statement := by
 
 /-- the former witness, now a regression example: the failed call leaves the iput pending and writes nothing -/
 example :
-    let s := run Cfg.pinnedMulti (openedFile true true) [.post .iput .fixed false false]
-    (step Cfg.pinnedMulti s (.rw true true .global false false true)).st = s ∧
-    (step Cfg.pinnedMulti s (.rw true true .global false false true)).wr = false := by decide
+    let s := run Cfg.pinnedMulti (openedFile true true) [.post .iput .fixed false false false false]
+    (step Cfg.pinnedMulti s (.rw true true .global false false true false)).st = s ∧
+    (step Cfg.pinnedMulti s (.rw true true .global false false true false)).wr = false := by decide
 
 set_option maxHeartbeats 4000000 in
 /-- on several processes the model still meets the documented table everywhere else -/
@@ -300,17 +300,17 @@ theorem attr_space_is_padded_size (t : XT) (n : Nat) : xlen t n = headerBytes t 
 /-! ## 4. non-vacuity: concrete instances meeting the hypotheses -/
 
 example : ModeInv (created true) := inv_created true
-example : ModeInv (run Cfg.pinned (openedFile true true) [.beginIndep, .redef, .post .iput .recv false false]) :=
+example : ModeInv (run Cfg.pinned (openedFile true true) [.beginIndep, .redef, .post .iput .recv false false false false]) :=
   inv_all_histories _ _ (Start.opened true true) _
 -- a reachable state with the stale dispatcher INDEP bit, and what a collective put says there
 example : (run Cfg.pinned (created true) [.enddef, .beginIndep, .redef]).d = ⟨false, true, true, true⟩ ∧
           (run Cfg.pinned (created true) [.enddef, .beginIndep, .redef]).n = ⟨false, true, false, false⟩ := by decide
 example : (step Cfg.pinned (run Cfg.pinned (created true) [.enddef, .beginIndep, .redef])
-            (.rw true true .fixed false false false)).err = .eindefine := by decide
+            (.rw true true .fixed false false false false)).err = .eindefine := by decide
 -- precedence: read-only file in collective mode, independent put of text into an int variable at a bad start
-example : (step Cfg.pinned (openedFile false true) (.rw true false .fixed true true false)).err = .eperm := by decide
-example : (step Cfg.pinned (openedFile true true) (.rw true false .fixed true true false)).err = .enotindep := by decide
-example : (step Cfg.pinned (run Cfg.pinned (openedFile true true) [.beginIndep]) (.rw true false .fixed true true false)).err
+example : (step Cfg.pinned (openedFile false true) (.rw true false .fixed true true false false)).err = .eperm := by decide
+example : (step Cfg.pinned (openedFile true true) (.rw true false .fixed true true false false)).err = .enotindep := by decide
+example : (step Cfg.pinned (run Cfg.pinned (openedFile true true) [.beginIndep]) (.rw true false .fixed true true false false)).err
             = .echar := by decide
 -- a rejection in the sense of `rejected_is_noop`, and a call `matches_spec_partial` applies to
 example : isRejection (step Cfg.pinned (openedFile false true) .redef).err = true := by decide
@@ -318,7 +318,7 @@ example : droppedCheck (run Cfg.pinned (created true) [.enddef]) (.fillVarRec .r
 example : droppedCheck (created true) (.fillVarRec .recv) = true := by decide
 -- close in define mode performs enddef; abort of a new file deletes it; pending request at close
 example : (step Cfg.pinned (created true) .abort).del = true := by decide
-example : (step Cfg.pinned (run Cfg.pinned (created true) [.post .iput .recv false false]) .close).err = .epending := by
+example : (step Cfg.pinned (run Cfg.pinned (created true) [.post .iput .recv false false false false]) .close).err = .epending := by
   decide
 
 -- "needs more header space" in data mode (collective, writable): wider type with the same count is refused,
@@ -336,6 +336,19 @@ example : (step Cfg.repaired (openedFile true true) (.putAtt .global false false
             = .enotindefine := by decide
 example : (step Cfg.repaired (openedFile true true) (.renameAtt .global false true false 2 3)).err = .enotindefine := by decide
 example : (step Cfg.repaired (openedFile true true) (.renameAtt .global false true false 3 2)).err = .noerr := by decide
+
+-- zero-length requests: the permission and mode tests still come first; varn with num == 0 then skips the
+-- coordinate tests (and, for bput_varn, the attached-buffer test), a zero in count[] does not; nothing is
+-- written or queued
+example : (step Cfg.repaired (created true) (.rw true false .fixed false false true true)).err = .eindefine := by decide
+example : (step Cfg.repaired (openedFile false true) (.rw true true .fixed false false true true)).err = .eperm := by decide
+example : (step Cfg.repaired (openedFile true true) (.rw true false .fixed false false true true)).err = .enotindep := by decide
+example : (step Cfg.repaired (openedFile true true) (.rw true true .fixed false true true true)).err = .noerr ∧
+          (step Cfg.repaired (openedFile true true) (.rw true true .fixed false true true true)).wr = false := by decide
+example : (step Cfg.repaired (openedFile true true) (.rw true true .fixed false true false true)).err = .einvalcoords := by decide
+example : step Cfg.repaired (openedFile true true) (.post .bput .fixed false false true true)
+            = ret (openedFile true true) .noerr := by decide
+example : (step Cfg.repaired (openedFile true true) (.post .bput .fixed false false false true)).err = .enullabuf := by decide
 
 def obligations : List String := [
   "inv_step", "inv_all_histories", "flags_agree", "flags_agree_bits_counterexample", "flags_agree_bits_partial",
